@@ -1,5 +1,90 @@
-(** C20 -- placeholder while the proofs are built *)
-From RL Require Import Model.Decode.
-Theorem C20_placeholder : m_decode strict_opts [] = Val (Err [IncompleteFlags], []).
-Proof. reflexivity. Qed.
-Print Assumptions C20_placeholder.
+(** C20 -- Decode errors identify the offending field and render with the right
+    AVP name.  Fault theorems on the Spec (transported by C05): each fault kind
+    yields the variant naming it with the offending value; a single undecodable
+    record in an otherwise valid control message yields exactly that error
+    (together with C15_ctrl_result).  Rendering ([render], the thiserror format
+    strings transcribed) is total and non-empty and shows, for the three
+    AVP-carrying variants, the name of the kind the dispatch table decodes that
+    attribute number to -- the two hand-maintained tables of avp.rs agree for all
+    numbers. *)
+From Coq Require Import String.
+From RL Require Import Model.Decode Model.Render Spec.SpecDecode Proofs.Framing Proofs.Options
+  Proofs.RenderFacts Proofs.Errors20.
+
+Theorem C20_fault_version : forall o b, 2 <= len b ->
+  fw_version (fld 2 0 b) <> 2 ->
+  s_decode (with_version true o) b = Err [InvalidVersion (fw_version (fld 2 0 b))].
+Proof.
+  intros o b L V. rewrite version_exact by exact L.
+  replace (fw_version (fld 2 0 b) =? 2) with false by (symmetry; apply N.eqb_neq; exact V). reflexivity.
+Qed.
+
+Theorem C20_fault_unknown_type : forall r, rec_vendor r = 0 -> rec_hidden r = false ->
+  shape_of (rec_type r) = None -> s_record r = Err (UnknownAvp (rec_type r)).
+Proof. exact fault_unknown_type. Qed.
+
+Theorem C20_fault_vendor : forall r, rec_vendor r <> 0 ->
+  s_record r = Err (UnsupportedVendorId (rec_vendor r)).
+Proof. exact fault_vendor. Qed.
+
+Theorem C20_fault_unknown_message_type : forall p, 2 <= len p -> mt_of_code (fld 2 0 p) = None ->
+  s_payload 0 p = Err (UnknownMessageType (fld 2 0 p)).
+Proof. exact fault_unknown_message_type. Qed.
+
+Theorem C20_fault_error_type : forall p, 4 <= len p -> et_of_code (fld 2 2 p) = None ->
+  s_payload 1 p = Err (InvalidResultCodeErrorType (fld 2 2 p)).
+Proof. exact fault_error_type. Qed.
+
+Theorem C20_fault_truncated : forall t sh p, shape_of t = Some sh -> len p < min_len sh ->
+  s_payload t p = Err (IncompleteAVP t).
+Proof. exact fault_truncated. Qed.
+
+Theorem C20_fault_utf8 : forall t k p, shape_of t = Some (ShStr k) -> len p <> 0 ->
+  utf8_valid p = false -> s_payload t p = Err (InvalidUtf8 t).
+Proof. exact fault_utf8. Qed.
+
+Theorem C20_fault_offset : forall b, fw_O (fld 2 0 b) = true ->
+  (let w := fld 2 0 b in
+   let fixed := 2 + (if fw_L w then 2 else 0) + 4 + (if fw_S w then 4 else 0) + 2 in
+   fixed <= len b /\ len b < fixed + fld 2 (fixed - 2) b) ->
+  exists n, s_data b = Err (InvalidOffset n) /\
+            n = fld 2 (2 + (if fw_L (fld 2 0 b) then 2 else 0) + 4 + (if fw_S (fld 2 0 b) then 4 else 0)) b.
+Proof. exact fault_offset. Qed.
+
+Theorem C20_single_fault : forall rs1 bad rs2 e,
+  (forall r, In r (rs1 ++ rs2) -> is_err (s_record r) = false) -> s_record bad = Err e ->
+  flat_map err_of_record (rs1 ++ bad :: rs2) = [e].
+Proof. exact single_fault. Qed.
+
+Theorem C20_render_total : forall e, render e <> EmptyString.
+Proof. exact render_nonempty. Qed.
+
+Theorem C20_name_matches_dispatch : forall t, avp_name t = name_of_type t.
+Proof. exact name_matches_dispatch. Qed.
+
+Theorem C20_decoded_kind_name : forall t p a, s_payload t p = Ok a -> kind_name a = name_of_type t.
+Proof. exact kind_name_decoded. Qed.
+
+Theorem C20_render_shows_name : forall t,
+  render (IncompleteAVP t) = ("Incomplete AVP (" ++ name_of_type t ++ ")")%string /\
+  render (InvalidUtf8 t) = ("AVP (" ++ name_of_type t ++ ") with invalid UTF-8 string payload")%string /\
+  render (AVPReadError t) = ("Read error when parsing AVP (" ++ name_of_type t ++ ")")%string.
+Proof. exact render_shows_name. Qed.
+
+Example C20_example : render (IncompleteAVP 12) = "Incomplete AVP (Q931CauseCode)"%string
+                   /\ render (InvalidUtf8 20) = "AVP (20) with invalid UTF-8 string payload"%string.
+Proof. split; reflexivity. Qed.
+
+Print Assumptions C20_fault_version.
+Print Assumptions C20_fault_unknown_type.
+Print Assumptions C20_fault_vendor.
+Print Assumptions C20_fault_unknown_message_type.
+Print Assumptions C20_fault_error_type.
+Print Assumptions C20_fault_truncated.
+Print Assumptions C20_fault_utf8.
+Print Assumptions C20_fault_offset.
+Print Assumptions C20_single_fault.
+Print Assumptions C20_render_total.
+Print Assumptions C20_name_matches_dispatch.
+Print Assumptions C20_decoded_kind_name.
+Print Assumptions C20_render_shows_name.
